@@ -13,7 +13,8 @@ CFG = dict(
               "C20_chain_transform", "C20_site_none", "C20_site_single", "C20_site_chain", "C20_client_site",
               "C20_stats_client_unary", "C20_stats_client_stream_open_failed", "C20_stats_client_stream",
               "C20_stats_server_unary_partial", "C20_stats_server_stream_partial", "C20_stats_end_eof_refuted",
-              "C20_stats_refused", "C20_conn", "C20_stats_tagged"],
+              "C20_stats_refused", "C20_conn", "C20_stats_tagged",
+              "C20_stats_tables_are_paths", "C20_stats_begin_first", "C20_stats_end_once_last", "C20_stats_order"],
     imports=["Model.Chain", "Model.Stats", "Check.C20c"],
     case_type="c20case",
     find_bad_from="find_bad_from",
